@@ -407,7 +407,8 @@ def first_failure_spsa(case, impl=None):
             return (f"raises-spsa-{a['answer'][1]}", f"SPSATerminationChecker.termination_check raised {a['answer'][1]} on finite inputs (callback #{i})", i)
         if a["answer"] != s["answer"]:
             tag = "run-boundary" if case.get("boundary_witness") else ("premature" if a["answer"] else "missed")
-            return (f"answer-spsa-{tag}", f"SPSATerminationChecker answered {a['answer']} at callback #{i}; the documented change measure on the current optimiser run says {s['answer']}", i)
+            # a corpus history that reproduces a listed known finding is reported under that finding's own key
+            return (case.get("finding_key") or f"answer-spsa-{tag}", f"SPSATerminationChecker answered {a['answer']} at callback #{i}; the documented change measure on the current optimiser run says {s['answer']}", i)
         if a["n"] != s["n"] or [Fraction(x) for x in a["fv"]] != [Fraction(x) for x in s["fv"]] or (None if a["best"] is None else Fraction(a["best"])) != (None if s["best"] is None else Fraction(s["best"])):
             return ("bookkeeping-spsa", f"SPSATerminationChecker bookkeeping after callback #{i}: {a} vs documented {s}", i)
     return None
@@ -417,9 +418,11 @@ def structured_ok(case):
     """a structured SPSA case is a sequence of optimiser runs as one optimiser configuration produces them: within a run
     the counter strictly grows and nothing follows a 'terminate'; the first counter of a run does not exceed the last
     counter of the previous run (or that run was ended by the change criterion).  A new run starting with a LARGER
-    counter than the previous run's last one is not recognisable by the checker and outside the property."""
-    if case["type"] != "spsa" or not case["structured"]:
-        return True
+    counter than the previous run's last one (SPSA with blocking=True) is not recognisable by the checker: that is the
+    known finding answer-spsa-run-boundary-increasing-count, identified by its corpus history; the random generators do
+    not produce this class, every other violation is still reported."""
+    if case["type"] != "spsa" or not case["structured"] or case.get("finding_key"):
+        return True  # (a corpus history kept for a known finding is evaluated against the strict per-run decision as it is)
     thr, v, mf = Fraction(case["thr"]), case["v"], case["maxfev"]
     prev = None
     for run in case["runs"]:
